@@ -14,6 +14,9 @@ UPLUS_SRC = '''
 VwT = typing.TypeVar("VwT")
 VwTB = typing.TypeVar("VwTB", bound=int)
 VwTC = typing.TypeVar("VwTC", int, str)
+import typing_extensions
+VwTE = typing_extensions.TypeVar("VwTE")                    # the back-ported factory: a free TypeVar like VwT
+VwTED = typing_extensions.TypeVar("VwTED", default=int)      # PEP 696 default
 
 class VwG(typing.Generic[VwT]):
     x: VwT
@@ -80,7 +83,8 @@ RAW = [
     ("typing.Callable", True), ("collections.abc.Callable[[int, str], None]", True),
     ("list", False), ("dict", False), ("tuple", False), ("set", False), ("frozenset", False), ("typing.List", False), ("typing.Dict", False),
     ("typing.Tuple", False), ("typing.Set", False), ("typing.Sequence", False), ("typing.Mapping", False),
-    ("VwTB", False), ("VwTC", False), ("type[int]", False), ("typing.Type[str]", False), ("type", False),
+    ("VwTB", False), ("VwTC", False), ("VwTE", True), ("list[VwTE]", False), ("dict[str, VwTE]", False), ("tuple[VwTE, ...]", False),
+    ("typing.Optional[list[VwTE]]", False), ("VwTED", False), ("list[VwTED]", False), ("type[int]", False), ("typing.Type[str]", False), ("type", False),
     ("VwG[int]", False), ("VwG", False), ("VwGD[str]", False), ("VwGD", False), ("VwNoAnn", False), ("VwEmpty", False), ("VwTwoVar", False),
     ("tuple[list[vwx.VwXOwner], vwx.VwXOwner]", False), ("dict[str, tuple[vwx.VwXPayee, list[vwx.VwXPayee]]]", False),
     ("typing.Union[list[vwx.VwXPayee], vwx.VwXPayee]", False), ("tuple[vwx.VwXSelf, list[vwx.VwXSelf], vwx.VwXOwner]", False), ("vwx.VwXOwner", False),
